@@ -146,7 +146,8 @@ def sym_subtract_floats(real):
 def install_core(silence_logger=True, stub_outputs=True):
     """stubs needed by every harness that drives Order/Position/Exchange/Strategy/simulator"""
     import jesse.utils as ju
-    install_np(['jesse.libs.dynamic_numpy_array', 'jesse.strategies.Strategy', 'jesse.helpers'])
+    install_np(['jesse.libs.dynamic_numpy_array', 'jesse.strategies.Strategy', 'jesse.helpers', 'jesse.models.ClosedTrade',
+                'jesse.models.Position', 'jesse.store.state_completed_trades', 'jesse.store.state_candles', 'jesse.services.candle'])
     for m in ('jesse.models.Position', 'jesse.models.SpotExchange'):
         setattr_mod(m, 'sum_floats', sym_sum_floats(ju.sum_floats), 'exact + on proxies, real function on floats')
         setattr_mod(m, 'subtract_floats', sym_subtract_floats(ju.subtract_floats), 'exact - on proxies, real function on floats')
